@@ -149,6 +149,9 @@ func errFields(err error) (string, string) {
 	return err.Error(), "non-status"
 }
 
+// IvalKey is the context key under which scenarios store an "interceptor-set" value.
+type IvalKey struct{}
+
 // ---- handler scripts --------------------------------------------------------------
 
 // HOp is one handler operation.
@@ -347,6 +350,7 @@ func (ts *TestServer) run(hs *HandlerScript, h *hIO, method string) (ret error) 
 			} else {
 				d += " peer=none"
 			}
+			d += fmt.Sprintf(" ival=%v", h.ctx.Value(IvalKey{}))
 			w.Log(Event{Actor: actor, Op: "ctx", Detail: d})
 		case "return":
 			if op.Code != codes.OK {
@@ -518,7 +522,14 @@ func (w *World) RunCall(conn grpc.ClientConnInterface, spec *CallSpec) {
 				return
 			}
 			if ch := grpctunnel.TunnelChannelFromContext(cs.Context()); ch != nil {
-				w.Log(Event{Actor: actor, Op: "ctxchan", Detail: w.ChanName(ch)})
+				d := w.ChanName(ch)
+				if tmd, ok := grpctunnel.TunnelMetadataFromOutgoingContext(cs.Context()); ok {
+					d += " outtunmd=" + mdString(tmd)
+					// the accessor must hand out a private copy: mutate it
+					tmd.Set("mutated-by-caller", spec.ID)
+					delete(tmd, "a")
+				}
+				w.Log(Event{Actor: actor, Op: "ctxchan", Detail: d})
 			}
 		case "send":
 			m := MakeMsg(spec.Tag, 0, nSent, op.Size)
